@@ -380,6 +380,13 @@ Definition represent_json (o : eobj) (x : eout) : res pv :=
          end
   end.
 
+(* encrypting a message OBJECT that already went through decrypt / encrypt: whatever its base64_segments
+   hold from before ([prior]) is only overwritten, never read, by perform_encrypt and represent_* *)
+Definition perform_encrypt_obj (prior : list (str * bytes)) (g : registry) (o : eobj) (d : edraw) : res eout :=
+  perform_encrypt g o d.
+Definition encrypt_json_obj (prior : list (str * bytes)) (g : registry) (o : eobj) (d : edraw) : res pv :=
+  do x <- perform_encrypt_obj prior g o d; represent_json o x.
+
 Definition encrypt_compact (g : registry) (o : eobj) (d : edraw) : res bytes :=
   do x <- perform_encrypt g o d; represent_compact x.
 Definition encrypt_json (g : registry) (o : eobj) (d : edraw) : res pv :=
